@@ -497,6 +497,31 @@ def sym_method(I, recv, name, args, kwargs):
                     z3.Implies(z3.And(t >= i, t < n - 1), z3.Select(new, t) == z3.Select(arr, off + t + 1))))
                 recv.arr, recv.off, recv.n = new, 0, simp(n - 1)
                 return None
+            if name in ("insert", "pop") and args and recv.mem is None and not (name == "pop" and len(args) != 1):
+                # insert(i, x) / pop(i) at a symbolic position 0 <= i <= n (resp. < n): a new array defined pointwise
+                n, off = to_z3(recv.n), to_z3(recv.off)
+                i = to_z3(args[0])
+                arr = recv.arr
+                hi = n if name == "insert" else n - 1
+                if not I.path.branch(z3.And(i >= 0, i <= hi), note=f"list.{name}-index-in-range"):
+                    if name == "pop":
+                        I.raise_py(IndexError, "pop index out of range")
+                    raise Unsupported("list.insert with an index outside 0..len (clamping / negative indices are not modelled)")
+                new = z3.Const(I.path.fresh_name("list_" + name), arr.sort())
+                if name == "insert":
+                    xz = to_z3(args[1]) if recv.ety.kind != "opaque" else I.path.fresh_int("logged")
+                    I.path.assume(z3.Select(new, i) == xz)
+                    I.path.qhyps.append(lambda t, arr=arr, new=new, i=i, n=n, off=off: z3.And(
+                        z3.Implies(z3.And(t >= 0, t < i), z3.Select(new, t) == z3.Select(arr, off + t)),
+                        z3.Implies(z3.And(t > i, t <= n), z3.Select(new, t) == z3.Select(arr, off + t - 1))))
+                    recv.arr, recv.off, recv.n = new, 0, simp(n + 1)
+                    return None
+                x = wrap(recv.ety, z3.Select(arr, simp(off + i)))
+                I.path.qhyps.append(lambda t, arr=arr, new=new, i=i, n=n, off=off: z3.And(
+                    z3.Implies(z3.And(t >= 0, t < i), z3.Select(new, t) == z3.Select(arr, off + t)),
+                    z3.Implies(z3.And(t >= i, t < n - 1), z3.Select(new, t) == z3.Select(arr, off + t + 1))))
+                recv.arr, recv.off, recv.n = new, 0, simp(n - 1)
+                return x
             if name == "copy":
                 return SSeq(recv.arr, recv.n, recv.ety, "list", recv.off)
         raise Unsupported(f"{recv.kind}.{name} on a symbolic sequence")
@@ -1232,6 +1257,10 @@ def fstring(I, e, frame):
             continue
         if isinstance(val, SBytes) and val.kind == "str" and spec == "":
             parts.append(val)
+            continue
+        if isinstance(val, (SInt, SReal, SBool)) and spec == "":
+            # the decimal text of a symbolic number: an unspecified string (only ever used in messages)
+            parts.append(SBytes(z3.Const(I.path.fresh_name("text_of_number"), S.SeqI), "str"))
             continue
         raise Unsupported(f"f-string field {spec!r} of symbolic {type(val).__name__}")
     out = ""
